@@ -1380,8 +1380,22 @@ pub(crate) fn m_sup_children() {
     assert!(out.contains("7") && out.contains("zz") && out.contains("8"), "children of <sup> lost: {:?}", out);
 }
 
+/// Every <style> element counts, also after one that does not parse.
+pub(crate) fn m_style_elements() {
+    let _which: u8 = kani::any();
+    let docs: [&str; 3] = [
+        "<style>p{color:#00f} a:hover{color:#f00}</style><style>.hide{display:none}</style><p>shown</p><p class=\"hide\">hidden</p>",
+        "<style>.hide{display:none}</style><style>}} garbage {{</style><p>shown</p><p class=\"hide\">hidden</p>",
+        "<style>@@@</style><style>???</style><style>.hide{display:none}</style><p>shown</p><div class=\"hide\"><p>hidden</p></div>",
+    ];
+    for html in docs.iter() {
+        let out = crate::config::plain().use_doc_css().string_from_read(html.as_bytes(), 40).expect("renders");
+        assert!(out.contains("shown") && !out.contains("hidden"), "{}: {:?}", html, out);
+    }
+}
+
 crate::verif_common::registry! {
-    m_sup_children, m_frag_layout, m_selector_entry, m_block_colour_leak, m_footnote_list, m_strike_layout, m_element_dispatch, m_link_min_width, m_table_sections, m_table_caption, m_inline_tags, m_colspan_huge, m_frag_in_word, m_ol_prefix_width, m_dom_reuse, m_columns, m_prefix_blank_lines, m_shallow_empty, m_link_footnotes, m_strike_affix, m_frag_nested, m_dom_children, m_cell_unwind, m_routes_width, m_insert_child, m_ol_numbering, m_prefix_width, m_into_cells, m_table_col_width, m_table_alloc,
+    m_style_elements, m_sup_children, m_frag_layout, m_selector_entry, m_block_colour_leak, m_footnote_list, m_strike_layout, m_element_dispatch, m_link_min_width, m_table_sections, m_table_caption, m_inline_tags, m_colspan_huge, m_frag_in_word, m_ol_prefix_width, m_dom_reuse, m_columns, m_prefix_blank_lines, m_shallow_empty, m_link_footnotes, m_strike_affix, m_frag_nested, m_dom_children, m_cell_unwind, m_routes_width, m_insert_child, m_ol_numbering, m_prefix_width, m_into_cells, m_table_col_width, m_table_alloc,
     r1_cascade_pairs, r1_cascade_triples, r2_specificity_order, r2_specificity_add,
     r3_ol_prefix_total, r4_ol_prefix_is_max,
     r9_tree_map_reduce_order, r12_config_plumbing, r12_width_zero,
